@@ -130,6 +130,8 @@ def add_stats(rng, prog, kinds=("counter", "tally", "wtally", "persistent"), wat
 def add_streams(rng, prog, n_draw=6):
     """seeded streams (re-created in construct_model) and handlers whose next delay is drawn from a distribution"""
     prog["streams"] = [{"name": "s1", "seed": rng.choice([0, 0, rng.randint(1, 10 ** 6)])}, {"name": "s2", "seed": rng.randint(-5, 10 ** 6)}]
+    if rng.random() < 0.5:
+        prog["streams"][1] = {"name": "s2", "via": "info"}      # the 'default' stream of an argument-less StreamInformation()
     dists = [["DistExponential", [rng.choice([0.5, 1.0, 2.0])]], ["DistUniform", [0.0, rng.choice([1.0, 3.0])]],
              ["DistTriangular", [0.0, 1.0, 2.0]], ["DistGamma", [rng.choice([0.5, 2.0]), 1.0]], ["DistNormalTrunc", [1.0, 1.0, 0.0, 3.0]]]
     tags = list(prog["handlers"].keys())
